@@ -694,10 +694,11 @@ def vkIsWritable (r : Rec F) : ValueKind → R F Bool
 
 /-! ### `utils.rs:16-31` + `node_base.rs:137-190` -/
 
-/-- `utils::bool_from_id`: boolean node → its value; integer node → `value == 1` -/
+/-- `utils::bool_from_id`: boolean node → its value; integer node → `value != 0`
+(after the repair of F-C18-3; it was `== 1`) -/
 def boolFromId (r : Rec F) (n : NodeId) : R F Bool :=
   if isBoolKind cx n then r.boolValue n
-  else if isIntKind cx n then do let v ← r.intValue n; pure (v == 1)
+  else if isIntKind cx n then do let v ← r.intValue n; pure (v != 0)
   else R.err .invalidNode
 
 /-- `NodeElementBase::is_implemented` -/
